@@ -300,6 +300,31 @@ def check_adjacents(ck, prog, cls, deep=False):
     has_self = adjacency_init(prog, cls, fn)
     n_cases = 0
     fallback = False
+    # the position-case analysis below either understands the loop nest or hands over to the
+    # concrete small-grid search: constructs it cannot model (a linear index split by divmod,
+    # ...) decide for the hand-over and are not gaps of the verdict the search then gives
+    from ..interp import suspended_gaps, GAP_EVENTS
+    sg = suspended_gaps()
+    sg.__enter__()
+    n_gaps0 = len(GAP_EVENTS)
+    try:
+        fallback = _adjacency_cases(ck, prog, cls, fn, q, has_self, deep)
+        if any(g[0] != 'loop' for g in GAP_EVENTS[n_gaps0:]):
+            fallback = True
+    finally:
+        sg.__exit__(None, None, None)
+    if fallback is None:
+        return
+    if fallback:
+        witness_adjacency(ck, prog, cls, fn, has_self)
+    elif deep:
+        witness_adjacency(ck, prog, cls, fn, has_self, cross_check=True)
+
+
+def _adjacency_cases(ck, prog, cls, fn, q, has_self, deep):
+    n_cases = 0
+    fallback = False
+    pending_obs = []
     for ccase, rcase in itertools.product(COL_CASES, COL_CASES):
         if (ccase == 'only') != (rcase == 'only'):
             continue           # a 1x1 grid has one row and one column
@@ -394,12 +419,9 @@ def check_adjacents(ck, prog, cls, deep=False):
               'in-range cells of its 3x3 block (itself included) are %s'
               % (q, ccase, rcase, sorted(appended, key=repr), sorted(want)), fn.loc(),
               key=q + '::adjacency')
-    if fallback:
-        witness_adjacency(ck, prog, cls, fn, has_self)
-    else:
+    if not fallback:
         ck.floor('adjacency position cases', n_cases, 10)
-        if deep:
-            witness_adjacency(ck, prog, cls, fn, has_self, cross_check=True)
+    return fallback
 
 
 def witness_adjacency(ck, prog, cls, fn, has_self=True, cross_check=False):
@@ -961,6 +983,22 @@ def run(ck, prog, tier):
         check_square_dist(ck, prog)
     finally:
         poly.INT_VARS.clear()
+    # find_adjacents is decided on its own (position cases, or the concrete small-grid search):
+    # what the constructor analysis could not model *inside* it while passing through is not a
+    # gap of any other rule's verdict
+    fa = cls.lookup('find_adjacents')
+    if fa is not None:
+        from ..interp import GAP_EVENTS
+        lo, hi = fa.node.lineno, getattr(fa.node, 'end_lineno', fa.node.lineno)
+        path = fa.module.path if hasattr(fa.module, 'path') else ''
+
+        def inside(where):
+            try:
+                f_, ln = where.rsplit(':', 1)
+                return lo <= int(ln) <= hi and f_.endswith('spatial_grid.py')
+            except ValueError:
+                return False
+        GAP_EVENTS[:] = [g for g in GAP_EVENTS if not inside(str(g[2]))]
     from .. import purity
     purity.check(ck, prog, ['spatial_grid.Index.nearest', 'spatial_grid.Index.remove_path',
                             'spatial_grid.Index.find_adjacents'], 'C13-R-pure')
